@@ -1620,6 +1620,8 @@ forward_query(int bind_fd, struct query *q)
 
 	newaddr = inet_addr("127.0.0.1");
 	myaddr = (struct sockaddr_in *) &(q->from);
+	/* the forwarding socket is IPv4; the query may have arrived over IPv6 */
+	myaddr->sin_family = AF_INET;
 	memcpy(&(myaddr->sin_addr), &newaddr, sizeof(in_addr_t));
 	myaddr->sin_port = htons(bind_port);
 
